@@ -48,23 +48,6 @@ def parseIndex (s : String) : Option Nat :=
       if n ≤ maxInt then some n else none
     else none
 
-/-- strconv.Atoi as used by `put` on arrays: optional sign, digits, must fit int64.
-    Returns the (possibly negative) integer. -/
-def atoi (s : String) : Option Int :=
-  let cs := s.toList
-  let (neg, ds) : Bool × List Char := match cs with
-    | '+' :: r => (false, r)
-    | '-' :: r => (true, r)
-    | r => (false, r)
-  match ds with
-  | [] => none
-  | _ :: _ =>
-    if ds.all isDigit then
-      let n := digitsToNat ds
-      if neg then (if n ≤ maxInt + 1 then some (-(n : Int)) else none)
-      else (if n ≤ maxInt then some (n : Int) else none)
-    else none
-
 /-- bsonkit.IndexedPath: some segment parses as an index. -/
 def indexedPath (p : Path) : Bool := p.any fun s => (parseIndex s).isSome
 
